@@ -102,9 +102,13 @@ impl TcpStream {
         // Until the handshake completes the socket entry (and with it the
         // ephemeral port) belongs to this future: release it if the connect
         // is refused or the future is dropped before completing.
-        let mut half_open = HalfOpen { pair, armed: true };
+        let mut half_open = HalfOpen {
+            pair,
+            syn_ack,
+            armed: true,
+        };
 
-        syn_ack.await.map_err(|_| {
+        (&mut half_open.syn_ack).await.map_err(|_| {
             io::Error::new(io::ErrorKind::ConnectionRefused, pair.remote.to_string())
         })?;
 
@@ -208,13 +212,28 @@ impl TcpStream {
 /// Removes the stream socket of a `connect` that did not complete.
 struct HalfOpen {
     pair: SocketPair,
+    syn_ack: oneshot::Receiver<()>,
     armed: bool,
 }
 
 impl Drop for HalfOpen {
     fn drop(&mut self) {
         if self.armed {
-            World::current_if_set(|world| world.current_host_mut().tcp.reset_stream(self.pair));
+            World::current_if_set(|world| {
+                // The listener may have accepted already, its SYN-ACK just was
+                // not seen before this future was dropped: reset the stream
+                // it holds, or its reads wait for a peer that does not exist.
+                if self.syn_ack.try_recv().is_ok() {
+                    let pair = self.pair;
+                    let message = Protocol::Tcp(Segment::Rst);
+                    if is_same(pair.local, pair.remote) {
+                        send_loopback(pair.local, pair.remote, message);
+                    } else {
+                        let _ = world.send_message(pair.local, pair.remote, message);
+                    }
+                }
+                world.current_host_mut().tcp.reset_stream(self.pair)
+            });
         }
     }
 }
